@@ -37,14 +37,18 @@ def cut_after_terminal(seen: list) -> list:
 
 def run_single(build: Callable[[Lab, Any], Any], source_msgs: list, hot: bool, clock: str = "num",
                sub_at: float = SUB_AT, observer_opts: dict | None = None, fluent: Callable[[Any], Any] | None = None,
-               dispose_at: float | None = None) -> tuple[Lab, ProbeObserver, Any]:
+               dispose_at: float | None = None, sub_scheduler: Callable[[Lab], Any] | None = None) -> tuple[Lab, ProbeObserver, Any]:
     lab = Lab(clock)
     src = lab.hot("s", source_msgs) if hot else lab.cold("s", source_msgs)
     obs = lab.observer("top", **(observer_opts or {}))
 
     def do_sub() -> None:
         o = build(lab, src)
-        obs.subscribe_to(o)
+        if sub_scheduler is not None:
+            # subscribe(observer, scheduler=<another scheduler object>): an operator that was given a scheduler explicitly keeps using that one
+            obs.subscribe_to(o, scheduler=sub_scheduler(lab))
+        else:
+            obs.subscribe_to(o)
     lab.at(sub_at, do_sub)
     if dispose_at is not None:
         lab.at(dispose_at, obs.dispose)
